@@ -50,7 +50,7 @@ def _cases(draw, n_big=10):
          "sigma": list(draw(st.permutations(list(range(n))))),
          "reorder": draw(st.sampled_from([True, True, False])),
          "dark": None, "shots": 1500, "seed": draw(st.integers(0, 2**20)),
-         "with_bitstrings": draw(st.sampled_from([True, True, False])), "suffix": draw(st.sampled_from([None, None, "a"]))}
+         "with_bitstrings": draw(st.sampled_from([True, True, False])), "suffix": draw(st.sampled_from([None, None, "a", "both"]))}
     if regime == "quasi_free":
         npairs = n * (n - 1) // 2
         c["pattern"] = draw(st.lists(st.sampled_from([0.0, 0.0, 1.0, 0.3, 0.05, 2.0]), min_size=npairs, max_size=npairs))
@@ -79,11 +79,12 @@ def _run(case, seqc, reorder, psi0, dark_ids):
     ids = list(seq.register.qubit_ids)
     n = len(ids)
     ev = case["evals"]
-    sfx = case.get("suffix")
-    obs = [pb.Occupation(evaluation_times=ev, tag_suffix=sfx), pb.CorrelationMatrix(evaluation_times=ev, tag_suffix=sfx),
-           pb.Energy(evaluation_times=ev)]
-    if case.get("with_bitstrings", True):
-        obs.append(pb.BitStrings(evaluation_times=[1.0], num_shots=case["shots"], tag_suffix=sfx))
+    # "both": an un-suffixed and a suffixed observable of the same kind side by side
+    obs = [pb.Energy(evaluation_times=ev)]
+    for sfx in ([None, "a"] if case.get("suffix") == "both" else [case.get("suffix")]):
+        obs += [pb.Occupation(evaluation_times=ev, tag_suffix=sfx), pb.CorrelationMatrix(evaluation_times=ev, tag_suffix=sfx)]
+        if case.get("with_bitstrings", True):
+            obs.append(pb.BitStrings(evaluation_times=[1.0], num_shots=case["shots"], tag_suffix=sfx))
     if n <= 5:  # emu-mps squares the MPO for these: minutes per evaluation beyond ~6 atoms with a dense pattern
         obs += [pb.EnergySecondMoment(evaluation_times=ev), pb.EnergyVariance(evaluation_times=ev)]
     kw = dict(dt=case["dt"], observables=obs, precision=case["precision"], optimize_qubit_ordering=reorder)
@@ -189,9 +190,9 @@ def check_case(case) -> Result:
     if dark:
         r.label("dark_atoms")
 
-    sfx = ("_" + case["suffix"]) if case.get("suffix") else ""
-    if sfx:
-        r.label("tag_suffix")
+    sfxs = ["", "_a"] if case.get("suffix") == "both" else [("_" + case["suffix"]) if case.get("suffix") else ""]
+    if case.get("suffix"):
+        r.label("tag_suffix" if case["suffix"] != "both" else "tag_suffix_and_plain_side_by_side")
     r.label("with_bitstrings" if case.get("with_bitstrings", True) else "no_bitstrings")
 
     def cmp(tag, transform, scale=1.0):
@@ -212,41 +213,45 @@ def check_case(case) -> Result:
                        f"n={n} regime={regime} reorder={case['reorder']} sigma={sigma} dark={sorted(dark)}")
                 return
 
-    cmp("occupation" + sfx, lambda y: y[mapB])
-    cmp("correlation_matrix" + sfx, lambda y: y[np.ix_(mapB, mapB)])
+    def _per_suffix(sfx):
+        cmp("occupation" + sfx, lambda y: y[mapB])
+        cmp("correlation_matrix" + sfx, lambda y: y[np.ix_(mapB, mapB)])
+        # bitstrings: position i <-> atom i
+        occ_final = e2e.to_np(getattr(resA, "occupation" + sfx)[-1]) if abs(resA.get_result_times("occupation" + sfx)[-1] - 1.0) < 1e-9 else None
+        for name, res, idl in (("base", resA, ids), ("variant", resB, idsB)):
+            if not case.get("with_bitstrings", True):
+                break
+            bs = getattr(res, "bitstrings" + sfx)[-1]
+            tot = sum(bs.values())
+            if tot != case["shots"]:
+                r.fail("bitstring_total:" + name, f"{tot} != {case['shots']}")
+            if any(len(k) != n or set(k) - {"0", "1"} for k in bs):
+                r.fail("bitstring_keys:" + name, str(list(bs)[:3]))
+                continue
+            for q in dark:
+                pos = idl.index(q)
+                if any(k[pos] == "1" and c > 0 for k, c in bs.items()):
+                    r.fail("dark_atom_measured_excited:" + name, f"atom {q} at position {pos}")
+            if occ_final is not None and regime == "quasi_free":
+                # product-like state: each position is Bernoulli(p_atom); exact two-sided binomial test
+                alpha = TOL["bitstring_alpha_per_run"] / (2 * n)
+                for i, q in enumerate(ids):
+                    pos = idl.index(q)
+                    k1 = sum(c for k, c in bs.items() if k[pos] == "1")
+                    p = min(max(float(occ_final[i]), 0.0), 1.0)
+                    # widen p by the comparison tolerance so that the test is about positions, not about rounding
+                    lo = binom.cdf(k1, tot, max(0.0, p - tol))  # "too few ones" judged against the smallest admissible p
+                    hi = binom.sf(k1 - 1, tot, min(1.0, p + tol))  # "too many ones" against the largest admissible p
+                    if min(lo, hi) < alpha:
+                        r.fail("bitstring_position_not_atom_order:" + name + (":internal_reorder" if perm_nontrivial and name == "variant" else ""),
+                               f"atom {q} (position {pos}): {k1}/{tot} ones, occupation {p:.4f}; tail prob {min(lo, hi):.2e}")
+                        break
+
     # energy scale: 1 + largest drive
     cmp("energy", lambda y: y, scale=1.0 + 20.0 * n)
     if n <= 5:
         cmp("energy_second_moment", lambda y: y, scale=(1.0 + 20.0 * n) ** 2)
         cmp("energy_variance", lambda y: y, scale=(1.0 + 20.0 * n) ** 2)
-    # bitstrings: position i <-> atom i
-    occ_final = e2e.to_np(getattr(resA, "occupation" + sfx)[-1]) if abs(resA.get_result_times("occupation" + sfx)[-1] - 1.0) < 1e-9 else None
-    for name, res, idl in (("base", resA, ids), ("variant", resB, idsB)):
-        if not case.get("with_bitstrings", True):
-            break
-        bs = getattr(res, "bitstrings" + sfx)[-1]
-        tot = sum(bs.values())
-        if tot != case["shots"]:
-            r.fail("bitstring_total:" + name, f"{tot} != {case['shots']}")
-        if any(len(k) != n or set(k) - {"0", "1"} for k in bs):
-            r.fail("bitstring_keys:" + name, str(list(bs)[:3]))
-            continue
-        for q in dark:
-            pos = idl.index(q)
-            if any(k[pos] == "1" and c > 0 for k, c in bs.items()):
-                r.fail("dark_atom_measured_excited:" + name, f"atom {q} at position {pos}")
-        if occ_final is not None and regime == "quasi_free":
-            # product-like state: each position is Bernoulli(p_atom); exact two-sided binomial test
-            alpha = TOL["bitstring_alpha_per_run"] / (2 * n)
-            for i, q in enumerate(ids):
-                pos = idl.index(q)
-                k1 = sum(c for k, c in bs.items() if k[pos] == "1")
-                p = min(max(float(occ_final[i]), 0.0), 1.0)
-                # widen p by the comparison tolerance so that the test is about positions, not about rounding
-                lo = binom.cdf(k1, tot, max(0.0, p - tol))  # "too few ones" judged against the smallest admissible p
-                hi = binom.sf(k1 - 1, tot, min(1.0, p + tol))  # "too many ones" against the largest admissible p
-                if min(lo, hi) < alpha:
-                    r.fail("bitstring_position_not_atom_order:" + name + (":internal_reorder" if perm_nontrivial and name == "variant" else ""),
-                           f"atom {q} (position {pos}): {k1}/{tot} ones, occupation {p:.4f}; tail prob {min(lo, hi):.2e}")
-                    break
+    for sfx in sfxs:
+        _per_suffix(sfx)
     return r
